@@ -120,15 +120,21 @@ func (e *Exec) callClosure(th *Thread, fn *ssa.Function, free []Value, args []Va
 	if fn.Blocks == nil || !e.allowInterp(fn) {
 		panic(e.unsupported("call of " + fn.String() + " (no body / no stub)"))
 	}
-	if e.local != nil {
-		if !e.x.mergeable(fn) {
-			e.abandon("callee " + fn.String())
-		}
-	} else if !e.x.noMerge && e.initDone && len(fn.Blocks) > 1 && e.x.mergeable(fn) {
-		if r, ok := e.callMerged(th, fn, free, args); ok {
+	if !e.x.noMerge && e.initDone && len(fn.Blocks) > 1 && e.mergeDepth < 16 && e.x.mergeable(fn) {
+		e.mergeDepth++
+		r, ok := e.callMerged(th, fn, free, args)
+		e.mergeDepth--
+		if ok {
 			return r
 		}
+	} else if e.local != nil && !e.x.mergeable(fn) {
+		e.abandon("callee " + fn.String())
 	}
+	return e.runBody(th, fn, free, args)
+}
+
+// runBody interprets the SSA body of fn.
+func (e *Exec) runBody(th *Thread, fn *ssa.Function, free []Value, args []Value) (ret Value) {
 	e.x.funcsEncoded[fn]++
 	if len(th.stack) > 200 {
 		panic(e.unsupported("call depth exceeded in " + fn.String()))
